@@ -3,7 +3,9 @@
 Space: every rejected string of the shared enumerations (token strings, single-edit
 neighbours of the corpus) and, for every single-character deletion of every corpus
 query, every variant with LF / CRLF / blank-LF-blank / LF-LF inserted at every
-position (pairs of positions in thorough), so that errors land on every line.
+position (pairs of positions in thorough), so that errors land on every line; and every
+string literal made of <= 6 items over {", ', a, raw TAB, bad escape, truncated escape,
+escaped quote} in name and comparison position at the very end of the query.
 Oracle: the error carries a token whose index is within [0, len(query)] and whose
 query is the query text; the `line L, column C` suffix of str(error) equals the line
 (1 + number of LF before the index) and 0-based column (distance from the last LF) of
@@ -40,7 +42,12 @@ def shards(tier):
     out = lang.shards(tier)
     n = len(gs.corpus())
     out += [{"space": "nl", "k": k, "n": 1 if tier == "quick" else 2} for k in range(n)]
+    out += [{"space": "lits", "i": i} for i in range(len(LIT_ITEMS))]
     return out
+
+
+# string literals whose error is reported relative to the literal: every sequence of <= 6 items
+LIT_ITEMS = ['"', "'", "a", "\t", "\\x", "\\u12", "\\\""]
 
 
 def deletions(q):
@@ -53,6 +60,17 @@ def deletions(q):
 
 
 def strings_of(desc):
+    if desc["space"] == "lits":
+        import itertools
+        first = LIT_ITEMS[desc["i"]]
+        for k in range(0, 6):
+            for rest in itertools.product(LIT_ITEMS, repeat=k):
+                body = first + "".join(rest)
+                for q in ("'", '"'):
+                    yield f"$[{q}{body}{q}]"
+                    yield f"$[?@=={q}{body}{q}]"
+                    yield f"$\n[{q}{body}{q}"
+        return
     if desc["space"] != "nl":
         yield from lang.strings_of(desc)
         return
